@@ -1,0 +1,1 @@
+//! Hooks for property C23 (empty unless needed).
